@@ -378,3 +378,48 @@ def scratch(prefix='verif-'):
 def chunks(seq, n):
     for i in range(0, len(seq), n):
         yield seq[i:i + n]
+
+
+# --------------------------------------------------------------------------
+# running the real bfg9000 (editable install of /repo) and tools
+
+def tool_env(extra=None):
+    e = {k: v for k, v in os.environ.items()
+         if k in ('HOME', 'LANG', 'LC_ALL', 'TMPDIR', 'USER')}
+    e['PATH'] = BIN + ':/venv/bin:/usr/local/bin:/usr/bin:/bin'
+    e['PYTHONHASHSEED'] = '0'
+    e['LC_ALL'] = 'C.UTF-8'
+    if extra:
+        e.update(extra)
+    return e
+
+
+def run(cmd, cwd=None, env=None, timeout=300, input=None):
+    p = subprocess.run(cmd, cwd=cwd, env=env or tool_env(), timeout=timeout,
+                       stdout=subprocess.PIPE, stderr=subprocess.STDOUT,
+                       text=True, errors='replace', input=input)
+    return p.returncode, p.stdout
+
+
+def bfg_configure(srcdir, builddir, *args, env=None, backend='make'):
+    return run(['/venv/bin/bfg9000', 'configure', builddir,
+                '--no-resolve-packages', '--backend=' + backend] + list(args),
+               cwd=srcdir, env=env)
+
+
+def pmap(fn, items, jobs=None):
+    from concurrent.futures import ThreadPoolExecutor
+    with ThreadPoolExecutor(jobs or NCPU) as ex:
+        return list(ex.map(fn, items))
+
+
+def tree_snapshot(root):
+    """(relative path, kind, size, mtime_ns) of everything below root"""
+    out = []
+    for dp, dns, fns in os.walk(root):
+        for n in sorted(dns + fns):
+            p = os.path.join(dp, n)
+            st = os.lstat(p)
+            out.append((os.path.relpath(p, root), st.st_mode, st.st_size,
+                        st.st_mtime_ns if not os.path.isdir(p) else 0))
+    return sorted(out)
